@@ -44,7 +44,9 @@ MAP = {
 SWAP_OP = {"<": "<=", "<=": "<", ">": ">=", ">=": ">", "==": "!=", "!=": "==", "+": "-", "-": "+", "*": "//", "//": "*",
            "%": "//", "<<": ">>", ">>": "<<", "&": "|", "|": "&", "+=": "-=", "-=": "+="}
 SWAP_NAME = {"and": "or", "or": "and", "True": "False", "False": "True", "continue": "pass", "break": "pass"}
-SKIP_LINE = re.compile(r"mplogger\.|logging\.|print\(|__repr__|__str__|raise |^\s*assert |^\s*@|^\s*(from|import) ")
+# lines that only feed logs, statistics, performance counters or the latency estimate are outside every property
+SKIP_LINE = re.compile(r"mplogger\.|logging\.|\.log\.|print\(|__repr__|__str__|raise |^\s*assert |^\s*@|^\s*(from|import) |"
+                       r"stats\.|\.perf\[|perf_|latency|mean_|stdev|\.tick_time|_print_stats")
 
 
 def owners(src):
@@ -85,6 +87,8 @@ def mutants(relpath):
             continue
         name = own.get(row)
         if only is not None and (name is None or not re.match(only, name)):
+            continue
+        if name in ("ConnectionStats", "ConnectionQuality", "sleep", "main"):
             continue
         new = None
         if t.type == tokenize.OP and t.string in SWAP_OP:
